@@ -43,9 +43,20 @@ def jobs(tier, seed):
 
     for d in fam.f1(fam.P, tier) + fam.f1(fam.V, tier) + fam.f1_mixed(tier) + fam.f1_shared(tier):
         add(d)
+    import json as _json
+    import re as _re
+    for d in fam.f1_shared(tier):
+        for key in sorted(set(_re.findall(r'"share", "(\w+)"', _json.dumps(d)))):
+            add(d, pre=[["eval", key, "q"]])                       # a shared node evaluated on its own first (possibly outside its domain)
+            add(d, pre=[["eval", key, "q"], ["normalize", "root", None]])
     m = masked()
     for d in (m if tier == "thorough" else m[::2]):
         add(d)
+    for d in m[::3] + [["Add", ["Multiply", ZERO, ["Logarithm", fam.X]], ONE], ["Multiply", ["NthPower", ["NthRoot", fam.X, 2], 2], ["const", 3]],
+                       ["Add", ["Reciprocal", ["Reciprocal", fam.X]], fam.X]]:
+        # simplifying an expression (which may enlarge the domain of the RESULT) must not change where the expression object itself is defined
+        add(d, pre=[["normalize", "root", None]])
+        add(d, pre=[["asexp_partial", "root", None]], var="x")
     for d in m[::7]:
         add(d, pre=[["eval", "root", "q"]])
     for d in [["Exponential", fam.P(1), ["sym", "b"]]]:
